@@ -15,7 +15,7 @@ RULE = {"C17": "per sensor model: all 4096 ADC codes (v = code*5/4096) through A
                "(the law, not the clamp, decides) or a sim distance inside the range; distinct = distinct (model, input)."}
 REQUIRED = {"C17": {"near-pair": 300, "adc-code": 3 * 4096, "special-double": 60, "random-double": 3000, "in-range-law-checked": 3000,
                     "clamped-low": 100, "clamped-high": 100, "monotone-pair": 10000, "sim-roundtrip": 600,
-                    "sim-outside-range": 100}}
+                    "sim-outside-range": 100, "sim-fresh-helper": 50, "sim-raw-write-between": 50}}
 ASSUMPTIONS = {"C17": ["AnalogInputSim.setVoltage passes any double unchanged to AnalogInput.getVoltage (probed: yes, incl. inf and negatives)"]}
 
 MODELS = {
@@ -56,9 +56,9 @@ def check_voltage(acc, name, v, kind):
     c, e, lo, hi = MODELS[name]
     s, sim, _ = sensors()[name]
     sim.setVoltage(v)
-    hist = _RECENT.setdefault(name, [])
+    hist = _RECENT.setdefault("all", [])
     case = {"mode": "voltage", "model": name, "v_bits": struct.pack(">d", v).hex(), "history": list(hist)}
-    hist.append(["v", struct.pack(">d", v).hex()])
+    hist.append(["v", struct.pack(">d", v).hex(), name])
     del hist[:-HIST]
     acc.evaluations += 1
     acc.ev(kind)
@@ -105,12 +105,22 @@ def check_monotone(acc, name, pairs):
             return
 
 
-def check_sim(acc, name, x):
+def check_sim(acc, name, x, fresh_helper=False, raw_between=None):
     c, e, lo, hi = MODELS[name]
-    s, _, helper = sensors()[name]
-    hist = _RECENT.setdefault(name, [])
-    case = {"mode": "sim", "model": name, "x_bits": struct.pack(">d", float(x)).hex(), "is_int": isinstance(x, int), "history": list(hist)}
-    hist.append(["d", struct.pack(">d", float(x)).hex()])
+    s, rawsim, helper = sensors()[name]
+    if fresh_helper:
+        # a helper object created just now (its remembered distance is its initial one)
+        from robotpy_ext.common_drivers import distance_sensors_sim as dss
+        helper = getattr(dss, name + "Sim")(s)
+        acc.ev("sim-fresh-helper")
+    if raw_between is not None:
+        # something else moved the analog input since the helper's last call (a second helper, a raw sim write)
+        rawsim.setVoltage(raw_between)
+        acc.ev("sim-raw-write-between")
+    hist = _RECENT.setdefault("all", [])
+    case = {"mode": "sim", "model": name, "x_bits": struct.pack(">d", float(x)).hex(), "is_int": isinstance(x, int), "history": list(hist),
+            "fresh_helper": fresh_helper, "raw_between": raw_between}
+    hist.append(["d", struct.pack(">d", float(x)).hex(), name])
     del hist[:-HIST]
     acc.evaluations += 1
     acc.ev("sim-roundtrip")
@@ -186,17 +196,25 @@ def run_shard(spec):
                 xs.append(rng.uniform(lo, hi) if r < 0.7 else rng.uniform(-10, 2 * hi) if r < 0.9 else rng.randrange(0, int(2 * hi)))
             for x in xs:
                 check_sim(acc, name, x)
-                if rng.random() < 0.3 and lo < x < hi and isinstance(x, float):
+                r = rng.random()
+                if r < 0.3 and lo < x < hi and isinstance(x, float):
                     check_sim(acc, name, x + rng.choice([1e-4, 5e-3, -5e-3, 1e-2]))
+                elif r < 0.45:
+                    # the same distance again after the input was moved behind the helper's back
+                    check_sim(acc, name, x, raw_between=rng.uniform(0.1, 3.0))
+                elif r < 0.55:
+                    check_sim(acc, name, rng.choice([0, 0.0, x]), fresh_helper=True)
         acc.samples.append({"mode": "sim", "model": name, "distances_head": [repr(x) for x in xs[13:18]]})
     return acc.result()
 
 
 def _feed_history(case):
     """Re-create driver-object state: replay the inputs that preceded the case on the same object."""
-    for kind, bits in case.get("history", ()):
+    for item in case.get("history", ()):
+        kind, bits = item[0], item[1]
+        model = item[2] if len(item) > 2 else case["model"]
         x = struct.unpack(">d", bytes.fromhex(bits))[0]
-        s, sim, helper = sensors()[case["model"]]
+        s, sim, helper = sensors()[model]
         try:
             if kind == "v":
                 sim.setVoltage(x)
@@ -207,8 +225,20 @@ def _feed_history(case):
             pass
 
 
-def replay(pid, case):
+def _replay_once(case, cross_model_first):
     acc = Acc()
+    _RECENT.clear()
+    if cross_model_first and "v_bits" in case:
+        # the other two drivers read the very same voltage first (all three share one process on a robot)
+        v = struct.unpack(">d", bytes.fromhex(case["v_bits"]))[0]
+        for other in MODELS:
+            if other != case["model"]:
+                s, sim, _ = sensors()[other]
+                sim.setVoltage(v)
+                try:
+                    s.getDistance()
+                except Exception:  # noqa
+                    pass
     _feed_history(case)
     _RECENT.clear()
     if case["mode"] == "voltage":
@@ -223,5 +253,11 @@ def replay(pid, case):
         x = struct.unpack(">d", bytes.fromhex(case["x_bits"]))[0]
         if case.get("is_int"):
             x = int(x)
-        check_sim(acc, case["model"], x)
+        check_sim(acc, case["model"], x, fresh_helper=case.get("fresh_helper", False), raw_between=case.get("raw_between"))
     return acc.violations[0] if acc.violations else None
+
+
+def replay(pid, case):
+    # the violating read alone (with the recent inputs that preceded it) - and, if that shows nothing, once more after
+    # the other two sensor models have read the same voltage (state shared between driver classes lives that long)
+    return _replay_once(case, False) or _replay_once(case, True)
